@@ -272,9 +272,28 @@ def check(chk):
     chk.judge(ok, 'C07.width', (DES, 'EPOCH_OFFSET_DAYS', des.line(ep[0]) if ep else 0), 'date epoch offset 2**31 on both sides', 'date epoch offsets differ')
     dd, _ = eff_deser('DesDateType')
     pd, _ = C.find_method(cq.cls('DateType'), 'deserialize')
-    divs = [text(n) for n in walk(dd) if tname(n) == 'DivNode']
-    ok = divs == ['unpack_num[int64_t](buf) / 1000.0'] and '/ 1000.0' in src(pd) and 'datetime_from_timestamp' in text_all(dd) and 'datetime_from_timestamp' in src(pd)
-    chk.judge(ok, 'C07.width', (DES, 'DesDateType.deserialize', des.line(dd)), 'timestamp: int64 milliseconds / 1000.0 -> datetime_from_timestamp on both sides', 'timestamp scaling differs')
+    # a timestamp is a whole number of milliseconds and a datetime a whole number of microseconds: both decoders turn one into the other without a float
+    from ..sem import float_taint
+    divs = [text(n) for n in walk(dd) if tname(n) == 'DivNode' and getattr(n, 'operator', '/') == '/']
+    floats = [nm for nm, ty in cdecls(dd).items() if ty in ('double', 'float')] + [text(n) for n in walk(dd) if tname(n) == 'FloatNode']
+    calls_dd = [text(n.function) for n in walk(dd) if tname(n) in ('SimpleCallNode', 'GeneralCallNode')]
+    why_py = None
+    for r_ in [n for n in body_walk(pd) if isinstance(n, ast.Return) and n.value is not None]:
+        why_py = why_py or float_taint(repo, cq, pd, r_.value)
+    okc = not divs and not floats and 'datetime_from_ms_timestamp' in calls_dd
+    chk.judge(okc and why_py is None, 'C07.width', (DES, 'DesDateType.deserialize', des.line(dd)),
+              'timestamp: the int64 millisecond count becomes a datetime in integer arithmetic on both sides',
+              'timestamp decoding goes through a float (%s): far from 1970 a double cannot hold microseconds and the decoded datetime is off by some - and the two decoders round differently'
+              % ('; '.join(x for x in [('compiled: ' + ', '.join(divs + floats)) if (divs or floats) else ('compiled: does not call datetime_from_ms_timestamp' if not okc else ''),
+                                       ('pure: ' + why_py) if why_py else ''] if x)))
+    cu = PyxModule(repo, 'cassandra/cython_utils.pyx')
+    hms = [n for n in cu.nodes() if tname(n) == 'CFuncDefNode' and fname(n) == 'datetime_from_ms_timestamp']
+    if len(hms) != 1:
+        raise AnalysisError('cython_utils.pyx: datetime_from_ms_timestamp not found')
+    fl_ = [nm for nm, ty in cdecls(hms[0]).items() if ty in ('double', 'float')] + [text(n) for n in walk(hms[0]) if tname(n) == 'FloatNode'] + \
+        [text(n) for n in walk(hms[0]) if tname(n) == 'DivNode' and getattr(n, 'operator', '/') == '/']
+    chk.judge(not fl_, 'C07.width', ('cassandra/cython_utils.pyx', 'datetime_from_ms_timestamp', cu.line(hms[0])), 'datetime_from_ms_timestamp: days, seconds and microseconds by floor division of the millisecond count',
+              'the compiled helper computes with floats (%s)' % ', '.join(fl_))
     # ---- narrowing
     nn = 0
     for rel in (DES, IOUTILS, OBJ):
